@@ -39,6 +39,53 @@ fn check_order(o: &VarOrder, nv: usize, what: &str) -> Option<String> {
     if it != want {
         return Some(format!("{}: in_order_iter {:?} disagrees with var_at_level {:?}", what, it, want));
     }
+    // the other views of the same two maps (read as part of "position and label maps are mutually
+    // inverse": they are how the maps are enumerated and compared)
+    if !crate::core::disabled("order_views") {
+        let r = guarded(|| -> Option<String> {
+            let rev: Vec<usize> = o.reverse_in_order_iter().map(|v| v.value_usize()).collect();
+            let mut wr = want.clone();
+            wr.reverse();
+            if rev != wr {
+                return Some(format!("reverse_in_order_iter {:?} is not the reverse of the levels {:?}", rev, want));
+            }
+            if nv > 0 && o.last_var().value_usize() != want[nv - 1] {
+                return Some(format!("last_var = {}, the last level holds {}", o.last_var().value_usize(), want[nv - 1]));
+            }
+            for p in 0..nv {
+                let v = VarLabel::new(want[p] as u64);
+                let ab = o.above(v).map(|x| x.value_usize());
+                let be = o.below(v).map(|x| x.value_usize());
+                if ab != (if p == 0 { None } else { Some(want[p - 1]) }) || be != (if p + 1 == nv { None } else { Some(want[p + 1]) }) {
+                    return Some(format!("above / below of the variable at level {} are {:?} / {:?}, the levels are {:?}", p, ab, be, want));
+                }
+                for q in 0..nv {
+                    let w = VarLabel::new(want[q] as u64);
+                    if o.lt(v, w) != (p < q) || o.lte(v, w) != (p <= q) {
+                        return Some(format!("lt / lte of the variables at levels {} and {} = {} / {}", p, q, o.lt(v, w), o.lte(v, w)));
+                    }
+                }
+            }
+            for lo in 0..=nv {
+                for hi in lo..=nv {
+                    // (documented as "all variables between [low_level..high_level)": compared as a set)
+                    let mut got: Vec<usize> = o.between_iter(lo, hi).map(|v| v.value_usize()).collect();
+                    let mut w: Vec<usize> = want[lo..hi].to_vec();
+                    got.sort();
+                    w.sort();
+                    if got != w {
+                        return Some(format!("between_iter({}, {}) yields {:?}, levels {}..{} hold {:?}", lo, hi, got, lo, hi, w));
+                    }
+                }
+            }
+            None
+        });
+        match r {
+            Ok(Some(e)) => return Some(format!("{}: {}", what, e)),
+            Err(p) => return Some(format!("{}: a view of the order (reverse_in_order_iter / last_var / above / below / lt / lte / between_iter) panicked: {}", what, p)),
+            Ok(None) => {}
+        }
+    }
     None
 }
 
